@@ -295,6 +295,9 @@ func report(c *cfg, results []*harnessResult, pkgFuncs map[string][]string, over
 		machinery = append(machinery, "no assertion was reached by any harness (vacuous check)")
 	}
 	for _, id := range vacuous {
+		if !exhaustive {
+			continue // a capped run may simply not have got there
+		}
 		machinery = append(machinery, "assertion "+id+" never reached on a feasible path (vacuous)")
 	}
 
